@@ -101,6 +101,7 @@ class ReadOnlyScenario(BaseScenario):
                 handle.ws = None
                 path = handle.path
                 base_sha = rawgeoh5.file_sha256(path)
+                base_sem = rawgeoh5.digests(rawgeoh5.read(path))
                 writer = None
                 if cfg.get("coopen") and not world.suspect:
                     writer = Workspace(path, mode="r+")     # a writable handle on the same file, same process
@@ -156,7 +157,17 @@ class ReadOnlyScenario(BaseScenario):
                     # bytes and mode after every event issued through R
                     sim.oracle("bytes_unchanged")
                     ro = handle.ws
-                    if writer is None:
+                    if writer is None and kind == "h_fetch_rplus":
+                        # the helper legitimately held the file writable for its own block: no stored content may
+                        # differ afterwards, the byte layout may (re-baseline)
+                        ro.close()
+                        sem_now = rawgeoh5.digests(rawgeoh5.read(path))
+                        ro.open()
+                        if sem_now != base_sem:
+                            raise Violation("C10", "content_changed", "the stored content changed across a helper block that re-opened the workspace 'r+' without any request to write",
+                                            {"op": kind})
+                        base_sha = rawgeoh5.file_sha256(path)
+                    elif writer is None:
                         now = rawgeoh5.file_sha256(path)
                         if now != base_sha:
                             raise Violation("C10", "bytes_changed", f"the file's bytes changed during {kind} on the read-only workspace",
